@@ -400,13 +400,28 @@ func renderReal(n *c9Node) (out string, panicked any) {
 			}
 		})
 	}
-	panicked = ev.Panics(func() {
+	var runaway string
+	panicked, runaway = ev.Bounded(func() {
 		w.Render(sn)
 	})
+	if runaway != "" {
+		panic(c9Runaway(runaway))
+	}
 	return buf.String(), panicked
 }
 
-func oracleC09(c c9Case) error {
+// c9Runaway: the rendering is still recursing (see ev.Bounded)
+type c9Runaway string
+
+func oracleC09(c c9Case) (err error) {
+	defer func() {
+		if p := recover(); p != nil {
+			if ra, ok := p.(c9Runaway); ok {
+				ev.DieWithViolation("C09", "tree", c, fmt.Errorf("rendering does not return (a finite snippet tree must render or panic): %s", string(ra)))
+			}
+			panic(p)
+		}
+	}()
 	var exp segs
 	var expPanic *c9Panic
 	func() {
